@@ -107,20 +107,17 @@ mod api {
 
 // ---- no-trap mode: under the gate condition none of the guards traps ("in all other cases they answer") -------
 //@extract file=canister/src/lib.rs item="fn verify_network" props=C14 rename=verify_network_notrap
-//@ rewrite R7 "with_state\(\|state\| \{" => "{ let state: &State = vp_state(); {"
-//@ rewrite R7 "\}\);\s*\}$" => "}; } }"
+//@ r7 ro="vp_state()" type=State
 //@ spec
 //@| requires global_state().utxos.network == network,
 //@end
 //@extract file=canister/src/lib.rs item="fn verify_api_access" props=C14 rename=verify_api_access_notrap
-//@ rewrite R7 "with_state\(\|state\| \{" => "{ let state: &State = vp_state(); {"
-//@ rewrite R7 "\}\);\s*\}$" => "}; } }"
+//@ r7 ro="vp_state()" type=State
 //@ spec
 //@| requires global_state().api_access != Flag::Disabled,
 //@end
 //@extract file=canister/src/lib.rs item="fn verify_synced" props=C14 rename=verify_synced_notrap
-//@ rewrite R7 "with_state\(\|state\| \{" => "{ let state: &State = vp_state(); {"
-//@ rewrite R7 "\}\);\s*\}$" => "}; } }"
+//@ r7 ro="vp_state()" type=State
 //@ spec
 //@| requires
 //@|     state_ranges(&global_state()),
